@@ -307,8 +307,7 @@ CHECKS = {
                 'TG_std; directly: fixed-seed Kolmogorov-Smirnov and moment tests with 20000 draws per dimension.',
         'note': 'Partial: that NumPy\'s primitive variates are i.i.d. standard normal / uniform is assumed (the theorems are '
                 'about the transforms); joint independence across positions is structural (disjoint primitive variates) and '
-                'checked by replay, not proved; the truncated-Gaussian std formula is certified numerically against '
-                'TG_std but TG_std is not proved to be the second central moment; heterogeneous / pooled samplers are '
+                'checked by replay, not proved; heterogeneous / pooled samplers are '
                 'checked directly. Trusted: Coq kernel, stdlib, Coquelicot, CoqInterval, ' + STD_AXIOMS + '; SciPy '
                 'distribution functions in the statistical search. One open known finding (CMG sampler).',
         'technique': 'Coq proof (change of variables for integrals, limits of truncated moments) + primitive-stream '
